@@ -156,7 +156,11 @@ where
                 //   v = w / u  =>  [wmin / umax .. wmax / umin]
                 //
                 // The constraint is not dropped until all variables converge into numbers.
-                Ok(state
+                // The constraint goes back into the store before any domain is narrowed:
+                // narrowing can bind a variable, and the constraints are then re-run with
+                // the new binding. Re-added afterwards, this constraint missed that run.
+                state
+                    .with_constraint(self.clone())
                     .process_domain(
                         &wwalk,
                         Rc::new(FiniteDomain::from(
@@ -176,8 +180,7 @@ where
                             wmin.checked_div(umax).unwrap_or(vmin)
                                 ..=wmax.checked_div(umin).unwrap_or(vmax),
                         )),
-                    )?
-                    .with_constraint(self))
+                    )
             }
             // If all operators do not yet have domains, then keep the constraint until it can
             // be used to constrain some domains.
